@@ -291,3 +291,40 @@ def load_known_findings():
     if not os.path.exists(p):
         return []
     return json.load(open(p)).get("findings", [])
+
+
+def apalache_obligations(rep, work, modules, runs, note_key="apalache_inductive_invariant"):
+    """Run Apalache proof obligations in parallel.  modules: {name: text}; runs: list of
+    (what, module name, extra args, want_ok).  An obligation that should hold and is refuted is a
+    specification-level violation; a negative configuration that is NOT refuted is a machinery failure;
+    if Apalache is absent or does not run, a note is left and nothing is claimed."""
+    import shutil as _sh
+    if _sh.which("apalache-mc") is None:
+        rep.notes["apalache"] = "apalache-mc not found: inductive argument skipped"
+        return
+    for name, text in modules.items():
+        with open(os.path.join(work, name + ".tla"), "w") as f:
+            f.write(text)
+
+    def one(i, run):
+        what, mod, args, want_ok = run
+        try:
+            p_ = subprocess.run(["apalache-mc", "check"] + list(args) + ["--out-dir=" + os.path.join(work, "out_%d" % i), mod + ".tla"],
+                                cwd=work, stdout=subprocess.PIPE, stderr=subprocess.STDOUT, timeout=900, text=True)
+            return p_.stdout
+        except subprocess.TimeoutExpired:
+            return "TIMEOUT"
+    outs = run_parallel([(lambda i=i, r=r: one(i, r)) for i, r in enumerate(runs)], max_procs=6)
+    res = []
+    for (what, mod, args, want_ok), out in zip(runs, outs):
+        ok = "The outcome is: NoError" in out
+        err = "The outcome is: Error" in out
+        if not ok and not err:
+            rep.notes["apalache"] = "apalache did not run (%s): %s" % (what, out[-300:])
+            return
+        res.append({"obligation": what, "discharged": ok if want_ok else err})
+        if want_ok and err:
+            rep.violation("specification-level: Apalache refutes '%s'" % what, {"log": out[-1500:]})
+        if not want_ok and ok:
+            raise MachineryError("negative configuration of the inductive argument was not refuted: " + what)
+    rep.notes[note_key] = res
